@@ -405,7 +405,7 @@ Definition ex_inv (from to : table) (ex : list nat) : Prop :=
 Lemma index_diff_from_exact from to ps adds :
   t_idx from = map fst ps -> script_ok i_name ps adds ->
   Permutation (t_idx to) (kept ps ++ adds) ->
-  (forall c, In (c, None) ps -> dd_is_generated_index_name D from c = false) ->
+  (forall c, In (c, None) ps -> dd_is_generated_index_name D from c = false \/ similar_unnamed_index D to c = None) ->
   forall ps', incl ps' ps -> forall ex, ex_inv from to ex ->
   fst (index_diff_from D from to (map fst ps') ex) = idx_expected ps' /\
   ex_inv from to (snd (index_diff_from D from to (map fst ps') ex)).
@@ -424,10 +424,30 @@ Proof.
     destruct (IH Hincl' (k :: ex) Hex') as [E1 E2].
     destruct (index_diff_from D from to (map fst ps') (k :: ex)) as [r ex2]. simpl in *.
     split; [|exact E2]. rewrite E1. destruct (N.eqb (index_change D c c') 0); reflexivity.
-  - rewrite (find_idx_none _ _ KF). rewrite (HG c Hin).
+  - rewrite (find_idx_none _ _ KF).
+    assert (FN : (if dd_is_generated_index_name D from c then similar_unnamed_index D to c else None) = None).
+    { destruct (HG c Hin) as [G|G]; rewrite G; [reflexivity|].
+      destruct (dd_is_generated_index_name D from c); reflexivity. }
+    rewrite FN.
     destruct (IH Hincl' ex Hex) as [E1 E2].
     destruct (index_diff_from D from to (map fst ps') ex) as [r ex2]. simpl in *.
     split; [|exact E2]. rewrite E1. reflexivity.
+Qed.
+
+Lemma first_unnamed_match_none k idx1 l :
+  (forall i, In i l -> i_name i <> []) -> first_unnamed_match D k idx1 l = None.
+Proof.
+  revert k. induction l as [|i l IH]; intros k H; simpl; [reflexivity|].
+  assert (N : str_eqb (i_name i) [] = false) by (apply str_eqb_neq; apply H; left; reflexivity).
+  rewrite N. simpl. apply IH. intros j Hj. apply H. right. exact Hj.
+Qed.
+
+(** a driver without FindGeneratedIndex finds no similar index in a table whose indexes are all named *)
+Lemma similar_unnamed_none to idx1 :
+  dd_find_generated_index D = None -> (forall i, In i (t_idx to) -> i_name i <> []) ->
+  similar_unnamed_index D to idx1 = None.
+Proof.
+  intros F H. unfold similar_unnamed_index. rewrite F. apply first_unnamed_match_none. exact H.
 Qed.
 
 Lemma index_diff_add_exact from to ex :
@@ -457,7 +477,7 @@ Qed.
 Lemma index_diff_exact from to ps adds :
   t_idx from = map fst ps -> script_ok i_name ps adds ->
   Permutation (t_idx to) (kept ps ++ adds) ->
-  (forall c, In (c, None) ps -> dd_is_generated_index_name D from c = false) ->
+  (forall c, In (c, None) ps -> dd_is_generated_index_name D from c = false \/ similar_unnamed_index D to c = None) ->
   exists adds', Permutation adds adds' /\
     index_diff_t D skip from to =
     add_or_skip skip (idx_expected ps ++ map (fun i => AddIndex (i_name i)) adds').
@@ -787,7 +807,7 @@ Theorem table_diff_exact from to attrs cps cadds ips iadds fps fadds :
   (forall c c', In (c, Some c') cps -> dd_column_change D from1 c c' <> None) ->
   t_idx from = map fst ips -> script_ok i_name ips iadds ->
   Permutation (t_idx to) (kept ips ++ iadds) ->
-  (forall c, In (c, None) ips -> dd_is_generated_index_name D from1 c = false) ->
+  (forall c, In (c, None) ips -> dd_is_generated_index_name D from1 c = false \/ similar_unnamed_index D to c = None) ->
   t_fks from = map fst fps -> script_ok f_symbol fps fadds ->
   Permutation (t_fks to) (kept fps ++ fadds) ->
   exists cadds' iadds' fadds',
